@@ -122,4 +122,28 @@ Proof.
   - destruct v; try discriminate. unfold conv_num. destruct ((nty p =? 2) && ((z <? -32768) || (32767 <? z))) eqn:E; simpl; [discriminate|].
     intros H; inversion H; subst. exists (nty p), z. split; [reflexivity|]. rewrite E. reflexivity.
 Qed.
+(* arguments are collector roots from the moment they are converted: whatever the evaluation of a later argument does
+   (allocation, the collection of FRE(""), nested calls), the converted value stays in temp_values at its place
+   and still stands for the same value *)
+Theorem converted_argument_rooted fuel p e s v o :
+  Good c s -> Jt s -> obj_ok c s v -> conv_arg p s v = Ok o ->
+  let '(s', _) := parse c fuel e (tv_push s o) in
+  Good c s' /\ length (tvals s') = S (length (tvals s)) /\
+  typed_for p (nth 0 (tvals s') (ONum 0 0)) /\ arg_val s' (nth 0 (tvals s') (ONum 0 0)) = arg_val s o.
+Proof.
+  intros G J Hv Ec.
+  assert (Hoo : obj_ok c s o) by (eapply conv_arg_ok; eauto).
+  assert (G1 : Good c (tv_push s o)) by (apply tv_push_good; assumption).
+  assert (J1 : Jt (tv_push s o)) by (eapply Jt_containers; [|exact J]; unfold tv_push; apply same_mem_set_tvals).
+  pose proof (parse_EV c fuel e (tv_push s o) G1 J1) as H. unfold EV in H.
+  destruct (parse c fuel e (tv_push s o)) as [s' r]. destruct H as (G' & _ & R' & _).
+  pose proof (r_tvals _ _ _ _ R') as Ht. simpl in Ht.
+  split; [exact G'|]. split; [symmetry; exact (Forall2_length _ _ _ Ht)|].
+  pose proof (Forall2_nth_RO _ _ _ _ 0%nat Ht) as H0. simpl in H0.
+  pose proof (conv_arg_typed _ _ _ _ Ec) as Hty.
+  split; [eapply RO_typed; eauto|].
+  rewrite (RO_arg_val _ _ _ _ H0).
+  - destruct o; reflexivity.
+  - unfold typed_for in Hty. destruct (is_strname p); [left; exact Hty|right]. destruct Hty as (t & z & -> & _). eauto.
+Qed.
 End Binding.
